@@ -60,10 +60,9 @@ class Rotate(Domain):
     """
 
     def __init__(self, domain: Domain, rotation_matrix, rotate_around=None):
-        if isinstance(domain, BoundaryDomain):
-            assert domain.dim >= 1, "Can only rotate domains in dimensions >= 2"
-        else:
-            assert domain.dim > 1, "Can only rotate domains in dimensions >= 2"
+        # the rotation acts on the surrounding space; a boundary (also a translated or
+        # rotated one, which is not a BoundaryDomain instance) has a smaller dimension
+        assert domain.space.dim > 1, "Can only rotate domains in dimensions >= 2"
         if rotate_around is None:
             rotate_around = torch.zeros((1, domain.dim))
         self.domain = domain
